@@ -46,7 +46,7 @@ CONFIG = {
     "level": "exploration",
     "shards": {"quick": 16, "thorough": 16},
     "timeout_s": {"quick": 600, "thorough": 3000},
-    "rule": "random ADEV programs per focus arm (each exported primitive, baseline(.), add_cost, sites inside lax.cond, site pairs) with 1-3 sample sites, 1-2 parameters (python floats or one array), random parameter values incl. near-edge ones; every worker first probes each primitive eagerly on a single-site program. distinct = (arm, structural class, number of sites, parameter form, mode); non-trivial = at least one sample site.",
+    "rule": "random ADEV programs per focus arm (each exported primitive, baseline(.), add_cost, sites inside lax.cond, site pairs) with 1-3 sample sites, 1-2 parameters (python floats or one array), random parameter values incl. near-edge ones; every worker first traces each primitive on a single-site program (kinds that raise are not used as non-focus sites); a few programs per worker are also evaluated op-by-op (no jit) and compared with the jitted result. distinct = (arm, structural class, number of sites, parameter form, mode); non-trivial = at least one sample site.",
     "reach_anchors": _ANCH,
     "reach_required": [
         f"{CORE}:ADInterpreter.eval_jaxpr_adev", f"{CORE}:Expectation.jvp_estimate", f"{CORE}:Expectation.grad_estimate",
@@ -307,7 +307,13 @@ def stat_monitor(case, exp, A, rng, N):
         return
     ctx.count("mode_vmap")
     cells = [("primal-mean", None, prim, e0)] + [("tangent-mean", i, tans[i], grad[i]) for i in range(n)]
-    on = "program" if case.struct_stat in ("site-after-tailcall", "site-after-cond-site") else case._label
+    shadow = case.struct_stat in ("site-after-tailcall", "site-after-cond-site", "sample-or-cost-after-mvd")
+
+    class _On:  # `on=` resolved only when a violation is actually emitted (may run the lazy diagnosis)
+        def __format__(self, spec):
+            return "program" if shadow else case.label
+
+    on = _On()
     stage2 = None
     for field, i, xs, exact in cells:
         ctx.count("stat_cells")
@@ -420,46 +426,45 @@ def run_program(ctx, A, prog, theta, arm, rng, eager=False, do_stat=False, N=400
     for k in set(case.kinds):
         ctx.count(f"kind_evaluated:{k}")
 
-    if True:
-        # grad_estimate vs jvp_estimate under the same key
-        targs = G.theta_args(prog, theta)
+    # grad_estimate vs jvp_estimate under the same key
+    targs = G.theta_args(prog, theta)
+    try:
+        g = jax.jit(exp.grad_estimate)(jax.random.key(seeds[0]), targs)
+        gl = [float(x) for x in np.concatenate([np.ravel(np.asarray(x)) for x in jax.tree_util.tree_leaves(g)])]
+        if len(gl) != n:
+            ctx.violation(f"C29|op=grad_estimate|on=Expectation|field=structure|cond={case.struct_det}", **case.witness(detail=f"{len(gl)} gradient entries for {n} parameters"))
+        else:
+            for i, t_i in first.get("tangents", {}).items():
+                ctx.count("grad_vs_jvp_checks")
+                if not common.close(gl[i], t_i, rtol=1e-3, atol=5e-4):
+                    ctx.violation(
+                        f"C29|op=grad_estimate|on=Expectation|field=grad-vs-jvp|cond={case.struct_det}",
+                        **case.witness(detail=f"grad_estimate[{i}] = {gl[i]!r} but jvp_estimate tangent for e_{i} under the same key = {t_i!r}"),
+                    )
+    except Exception as e:  # noqa: BLE001
+        case.raised("grad_estimate", e)
+    # Expectation.estimate
+    if not light:
+        ctx.count("estimate_calls")
         try:
-            g = jax.jit(exp.grad_estimate)(jax.random.key(seeds[0]), targs)
-            gl = [float(x) for x in np.concatenate([np.ravel(np.asarray(x)) for x in jax.tree_util.tree_leaves(g)])]
-            if len(gl) != n:
-                ctx.violation(f"C29|op=grad_estimate|on=Expectation|field=structure|cond={case.struct_det}", **case.witness(detail=f"{len(gl)} gradient entries for {n} parameters"))
+            tap.rows.clear()
+            fe = jax.jit(exp_tap.estimate)
+            v = fe(jax.random.key(seeds[1]), targs)
+            jax.block_until_ready(v)
+            jax.effects_barrier()
+            rows = []
+            for row in tap.rows:
+                if row not in rows:
+                    rows.append(row)
+            ctx.count("estimate_value_checks")
+            if np.shape(v) != ():
+                ctx.violation(f"C29|op=estimate|on=Expectation|field=shape|cond={case.struct_det}", **case.witness(detail=f"shape {np.shape(v)}"))
             else:
-                for i, t_i in first.get("tangents", {}).items():
-                    ctx.count("grad_vs_jvp_checks")
-                    if not common.close(gl[i], t_i, rtol=1e-3, atol=5e-4):
-                        ctx.violation(
-                            f"C29|op=grad_estimate|on=Expectation|field=grad-vs-jvp|cond={case.struct_det}",
-                            **case.witness(detail=f"grad_estimate[{i}] = {gl[i]!r} but jvp_estimate tangent for e_{i} under the same key = {t_i!r}"),
-                        )
+                check_records(case, rows, float(v), {}, None, what="estimate")
         except Exception as e:  # noqa: BLE001
-            case.raised("grad_estimate", e)
-        # Expectation.estimate
-        if not light:
-            ctx.count("estimate_calls")
-            try:
-                tap.rows.clear()
-                fe = jax.jit(exp_tap.estimate)
-                v = fe(jax.random.key(seeds[1]), targs)
-                jax.block_until_ready(v)
-                jax.effects_barrier()
-                rows = []
-                for row in tap.rows:
-                    if row not in rows:
-                        rows.append(row)
-                ctx.count("estimate_value_checks")
-                if np.shape(v) != ():
-                    ctx.violation(f"C29|op=estimate|on=Expectation|field=shape|cond={case.struct_det}", **case.witness(detail=f"shape {np.shape(v)}"))
-                else:
-                    check_records(case, rows, float(v), {}, None, what="estimate")
-            except Exception as e:  # noqa: BLE001
-                case.raised("estimate", e)
-        if do_stat:
-            stat_monitor(case, exp, A, rng, N)
+            case.raised("estimate", e)
+    if do_stat:
+        stat_monitor(case, exp, A, rng, N)
     if ctx.counters.get("violations_raw", 0) > nviol0:
         status = "bad"
     return status
@@ -508,12 +513,16 @@ class Diagnoser:
         out = None
         for k in kinds:
             if k not in self.seen:
-                rng = self.ctx.child_rng(9, R.ALL_KINDS.index(k))
-                arm = single_arm(k)
-                prog = G.gen_program(rng, arm, single=True)
-                theta = G.gen_theta(rng, prog)
-                self.ctx.count("diagnosis_programs")
-                st = run_program(self.ctx, self.A, prog, theta, arm, rng, light=True, diag=None)
+                st = "ok"
+                for attempt in range(3):
+                    rng = self.ctx.child_rng(9, R.ALL_KINDS.index(k), attempt)
+                    arm = single_arm(k)
+                    prog = G.gen_program(rng, arm, single=True)
+                    theta = G.gen_theta(rng, prog)
+                    self.ctx.count("diagnosis_programs")
+                    st = run_program(self.ctx, self.A, prog, theta, arm, rng, light=True, diag=None)
+                    if st != "ok":
+                        break
                 self.seen[k] = st
                 if st != "ok":
                     self.bad.add(k)
@@ -530,11 +539,11 @@ def run(ctx):
     import time
 
     # budgets: CPU seconds of this worker (robust on a shared machine) and a wall cap
-    cpu_budget = ctx.pick(50.0, 700.0)
-    wall_budget = ctx.pick(150.0, 840.0)
+    cpu_budget = ctx.pick(50.0, 300.0)
+    wall_budget = ctx.pick(420.0, 2400.0)
     cpu0 = time.process_time()
     N = ctx.pick(4000, 40000)
-    reps = ctx.pick(6, 60)
+    reps = ctx.pick(6, 40)
     bad = probe_kinds(ctx, A)
     diag = Diagnoser(ctx, A, bad)
     total = len(G.ARMS) * reps
